@@ -1,3 +1,4 @@
+import Props.C20Keys
 import Model.ErrorResponse
 import Generated.Errors
 /-
